@@ -129,7 +129,12 @@ where
             WaitingProjected::NoPool => Poll::Ready(WaitingPoll::Closed),
         };
 
-        if polled.is_ready() {
+        // A waiter which is merely not ready yet keeps listening: a connection
+        // released later must still be able to pre-empt this checkout.
+        if matches!(
+            polled,
+            Poll::Ready(WaitingPoll::Connected(_) | WaitingPoll::Closed)
+        ) {
             self.as_mut().set(Waiting::NoPool);
         };
 
